@@ -402,6 +402,7 @@ fn wedge_cases() -> Vec<Case> {
 }
 
 pub fn run(tier: Tier) -> Report {
+    set_delta(1e-7);
     let mut rep = Report::new("C03", tier, "model_checking");
     let t0 = std::time::Instant::now();
     let is = inits(tier);
@@ -442,6 +443,6 @@ pub fn run(tier: Tier) -> Report {
         Tier::Quick => "histories of <= 3 operations (<= 2 from generator trees) over {infeasible_elimination, compose pruned/unpruned with 11-13 right operands, apply_func with 4 maps} ending in a pruning operation, from 1-D/2-D generator trees (<= 7 nodes, parallel/concurrent predicates, partial) and from_aff/from_poly roots",
         Tier::Thorough => "histories of <= 4 operations from one-input from_aff/from_poly roots, <= 3 from two-input ones, <= 2 from generator trees with <= 8 nodes (denser selection)",
     });
-    rep.assume("a disagreement counts only where the closed region of the unpruned route is fat (some point with slack >= 1e-6 * max(1,|row|_1) in every row)");
+    rep.assume("a disagreement counts only where the closed region of the unpruned route is fat (some point with slack >= 1e-7 * max(1,|row|_1) in every row)");
     rep
 }
